@@ -47,6 +47,9 @@ enum : int {
     EV_SLOT_RELEASE = 11, // obj = slot (running_ := false)
     EV_FIN_RECLAIM_VALUE = 12, // obj = block, freed by garbage_collection::fin
     EV_FIN_RECLAIM_NODE = 13,  // obj = node, freed by garbage_collection::fin
+    EV_LOCK_ACQ = 14,      // obj = version word, lock() succeeded
+    EV_LOCK_REL = 15,      // obj = version word, unlock() succeeded
+    EV_VERSION_STORE = 16, // obj = version word, plain store: a = lock bit of the word before, b = lock bit of the stored word
 };
 
 enum : int {
